@@ -9,7 +9,7 @@ META = {
             'of pieces through output.text.',
     'bounds': {
         'quick': 'inline payload: all Latin-1 strings len<=2 (no line breaks, no $, self-closing per the documented brace/backslash '
-                 'rules, not starting with `<`); token-level payload 1..2 chars in 5 placements; wrap: 9 templates x 1..2 lines '
+                 'rules, not starting with `<`); token-level payload 1..2 chars in 5 placements; payloads of <=5 pieces from 7 (deep nesting, escapes); wrap: 11 templates x 1..2 lines '
                  'of 0..2 chars each over ASCII printable + tab, and single-string text',
         'thorough': 'inline payload len<=3; wrap: 1..3 lines',
     },
@@ -89,6 +89,45 @@ def mk_inline_chars(L, lo, hi):
                           'convert.stringify_value', 'format.html.element', 'format.utils.push_tokens', 'OutputStream.push_string']}
 
 
+PAYLOAD_PIECES = ['{', '}', 'a', '\\', ' b', '>', '*']
+
+
+def mk_inline_pieces(K, first):
+    """payload = up to K solver-chosen pieces (deep brace nesting, escapes) through the real tokenizer"""
+    from vf.pipe import expand_concrete_tokens, make_config
+    user = {'options': {'output.format': False}}
+    P = len(PAYLOAD_PIECES)
+
+    def harness(wrong):
+        def h(k2: int, k3: int, k4: int, k5: int, k6: int):
+            ks = [first]
+            for k in [k2, k3, k4, k5, k6][:K - 1]:
+                if not (-1 <= k < P):
+                    return 'skip'
+                ks.append(k)
+            for k in [k2, k3, k4, k5, k6][K - 1:]:
+                if k != -1:
+                    return 'skip'
+            seen_end = False
+            for k in ks:
+                if k == -1:
+                    seen_end = True
+                elif seen_end:
+                    return 'skip'
+            t = ''.join([PAYLOAD_PIECES[k] for k in ks if k >= 0])
+            ok, content = unescape(t)
+            if not ok:
+                return 'skip'
+            out = expand_concrete_tokens('ex{' + t + '}', make_config(user))
+            exp = '<ex>' + content + '</ex>' + ('!' if wrong else '')
+            return True if out == exp else 'text_not_verbatim'
+        return h
+    return {'fn': harness(False), 'twin': harness(True), 'witnesses': [dict(k2=-1, k3=-1, k4=-1, k5=-1, k6=-1)] if first in (2, 4, 5, 6) else [],
+            'assumptions': ['payload = concatenation of <=%d pieces, piece 0 = %r, others solver-chosen from %r, restricted to payloads that '
+                            'close themselves' % (K, PAYLOAD_PIECES[first], PAYLOAD_PIECES)],
+            'functions': ['abbreviation.tokenizer.literal (nested braces, escapes)', 'parser.text/get_text']}
+
+
 PLACEMENTS = {
     'text': ('ex{QZ1}', ['<ex>', 0, '</ex>']),
     'text-then-child': ('ex{QZ1}>ey', ['<ex>', 0, '<ey></ey></ex>']),
@@ -152,6 +191,8 @@ WRAP = {
     'ex*>ey+ez': ('ex*>ey+ez', lambda l: ['<ex><ey></ey><ez>', l, '</ez></ex>'], '', ''),
     'ex*>ey[t=$#]': ('ex*>ey[t=$#]', lambda l: ['<ex><ey t="', l, '"></ey></ex>'], '', ''),
     'ew+ex*': ('ew+ex*', lambda l: ['<ex>', l, '</ex>'], '<ew></ew>', ''),
+    'ex*>ey{$#}*2': ('ex*>ey{$#}*2', lambda l: ['<ex><ey>', l, '</ey><ey>', l, '</ey></ex>'], '', ''),
+    '(ew{$#}+ex>ey*2>ez{$#})*': ('(ew{$#}+ex>ey*2>ez{$#})*', lambda l: ['<ew>', l, '</ew><ex><ey><ez>', l, '</ez></ey><ey><ez>', l, '</ez></ey></ex>'], '', ''),
 }
 SINGLE = {
     'ex>ey': ['<ex><ey>', 0, '</ey></ex>'],
@@ -268,6 +309,12 @@ def jobs(tier):
         out.append(Job('C04-a/inline-chars/len=%d,c0=[%d,%d)' % (L, lo, hi), 'vf.props.c04:mk_inline_chars',
                        dict(L=L, lo=lo, hi=hi), shape='W', bound='Latin-1 len=%d' % L, budget=900 if q else 3000,
                        weight=40 ** L))
+    for first in range(len(PAYLOAD_PIECES)):
+        if PAYLOAD_PIECES[first] == '}':
+            continue          # a payload starting with `}` never closes itself: the partition would be vacuous
+        KP = 5 if q else 6
+        out.append(Job('C04-a/inline-pieces/K=%d,p0=%d' % (KP, first), 'vf.props.c04:mk_inline_pieces', dict(K=KP, first=first),
+                       shape='H', bound='<=%d pieces' % KP, budget=1500 if q else 6000, weight=2000))
     for place in PLACEMENTS:
         out.append(Job('C04-a/inline-token/%s' % place, 'vf.props.c04:mk_inline_token', dict(place=place), shape='H',
                        bound='payload 1..2 chars', budget=600, weight=20))
